@@ -601,6 +601,57 @@ func genRenderModel(r *rng) *Model {
 	}
 	if r.chance(65) {
 		attributeModel(r, m)
+		if r.chance(3) {
+			// a source file name of 70 000 characters: a line of the commented output
+			// that is far longer than the same line of the plain output (buffers,
+			// scanners with a line limit)
+			long := strings.Repeat("very-long-directory-name/", 2800) + "x.fga"
+			switch r.intn(3) {
+			case 0:
+				for _, t := range m.Types {
+					if len(t.Relations) > 0 {
+						rel := t.Relations[r.intn(len(t.Relations))]
+						if !rel.NoMeta {
+							rel.File = long
+							if rel.Module == "" {
+								rel.Module = "core"
+							}
+						}
+						break
+					}
+				}
+			case 1:
+				if len(m.Types) > 0 {
+					t := m.Types[r.intn(len(m.Types))]
+					t.File = long
+					if t.Module == "" {
+						t.Module = "core"
+					}
+				}
+			case 2:
+				if len(m.Conds) > 0 {
+					c := m.Conds[r.intn(len(m.Conds))]
+					c.File = long
+					if c.Module == "" {
+						c.Module = "core"
+					}
+				}
+			}
+		}
+	}
+	if r.chance(10) {
+		// condition expressions are taken verbatim: several lines, trailing blanks,
+		// a line of blanks only (JSON / protobuf can carry them)
+		for _, c := range m.Conds {
+			if len(c.Params) > 0 && r.chance(50) {
+				p := c.Params[0].Name
+				c.Expr = []string{
+					p + " == " + p + " &&  \n  " + p + " == " + p,
+					p + " == " + p + " ||\n   \n  " + p + " == " + p,
+					p + " == " + p + "   ",
+				}[r.intn(3)]
+			}
+		}
 	}
 	if r.chance(5) {
 		injectAliasingOpt(r, m, true)
